@@ -7,6 +7,9 @@
   D3  every instruction type has a non-default arm in each text and byte
       emitter switch; types that print an immediate also encode one
   D4  register-name tables are in hardware-encoding order
+D5  a register number placed in the low bits of the opcode byte (push/pop/mov imm) has its
+    bit 3 carried by a REX prefix, as the full register name in the listing requires
+D6  a displacement is emitted as one byte only where it is known to lie in [-128, 127]
 """
 import os
 import re
@@ -333,6 +336,10 @@ def run(ctx):
     rep.floor("D1-ROW-VS-AS", 170)
 
     d3(db, rep, tu, type_enum[0], tnames)
+    from x86enc import check_rex_coverage
+    check_rex_coverage(db, rep, "D5-REX-COVERAGE", tnames)
+    from x86enc import check_disp8
+    check_disp8(db, rep, "D6-DISP8-RANGE")
     d4(db, rep)
 
 
